@@ -75,6 +75,56 @@ theorem C18_cont_setpos_reject_unchanged (s : ESpace) (a : Aid) (p : Pos)
     · simp at h
     · split at h <;> simp at h
 
+/-- The setter with the state returned also on an exception (`agentSetW false`, what the driver runs) is `agentSet`: its
+    state is the state `estep` carries on with, its result the result of `agentSet`; likewise for a value of any length. -/
+theorem C18_cont_setpos_stepwise (s : ESpace) (a : Aid) (p : Pos) :
+    agentSetW false s a p = (estep s (.set a p), (agentSet s a p).map (fun _ => ())) ∧
+    agentSetVW false s a p = (estepV s (.set a p), (agentSetV s a p).map (fun _ => ())) := by
+  have h1 : ∀ q, agentSetW false s a q = (estep s (.set a q), (agentSet s a q).map (fun _ => ())) := by
+    intro q
+    unfold agentSetW estep agentSet
+    cases hg : s.gone a
+    · simp only [Bool.false_eq_true, if_false]
+      cases hb : inBounds s.cfg.dims q <;> cases ht : s.cfg.torus
+      · simp [setPos, hb, ht, hg, Except.map]
+      all_goals
+        simp only [Bool.or_true, Bool.or_false, if_true]
+        cases hs : setPos s a q <;> simp [hg, Except.map]
+    · simp [hg, Except.map]
+  refine ⟨h1 p, ?_⟩
+  unfold agentSetVW estepV agentSetV
+  cases hg : s.gone a
+  · simp only [Bool.false_eq_true, if_false]
+    cases hb : bcast s.nd p with
+    | error e => simp [hg, Except.map]
+    | ok q =>
+      simp only [h1 q, estep, agentSet, hg, Bool.false_eq_true, if_false]
+  · simp [hg, Except.map]
+
+/-- Experimental `agent.position = value` that raises — whatever the exception: the state the call leaves behind
+    (`agentSetW` returns it also on an exception) is the state before the call.  With a setter that stores the value before
+    validating it (`writeFirst = true`) this is false: `C18_cont_setpos_write_first_refuted`. -/
+theorem C18_cont_setpos_reject_state (s : ESpace) (a : Aid) (p : Pos) (e : Err)
+    (h : (agentSetW false s a p).2 = .error e) :
+    (agentSetW false s a p).1 = s ∧ estep s (.set a p) = s ∧ agentSet s a p = .error e := by
+  have hst := (C18_cont_setpos_stepwise s a p).1
+  have he : agentSet s a p = .error e := by
+    rw [hst] at h
+    cases hr : agentSet s a p with
+    | error e' => rw [hr] at h; simpa [Except.map] using h
+    | ok s' => rw [hr] at h; simp [Except.map] at h
+  have hs : estep s (.set a p) = s := by simp [estep, he]
+  exact ⟨by rw [hst]; exact hs, hs, he⟩
+
+/-- A setter that writes the row first and validates afterwards violates it: in the box `[0,1]²` the agent at (1/64, 1/64) is
+    assigned (65/64, 0); the call raises `ValueError` and the agent reports (65/64, 0), outside the space. -/
+theorem C18_cont_setpos_write_first_refuted :
+    ∃ (s : ESpace) (a : Aid) (p : Pos), (agentSetW true s a p).2 = .error .oob ∧
+      agentGet s a = .ok [1, 1] ∧ agentGet (agentSetW true s a p).1 a = .ok [65, 0] ∧
+      inBounds s.cfg.dims [65, 0] = false ∧ (agentSetW false s a p).2 = .error .oob ∧ (agentSetW false s a p).1 = s :=
+  ⟨erun { dims := [(0, 64), (0, 64)], torus := false } 0 [.new 1, .set 1 [1, 1]], 1, [65, 0],
+    by rfl, by rfl, by rfl, by rfl, by rfl, (C18_cont_setpos_reject_state _ _ _ _ (by rfl)).1⟩
+
 /-- `agent.position += v` statement by statement (`agentIaddW false`: getter = a copy, `+=` on the copy, setter) is the
     assignment of position + v: its state is the state `estep` carries on with and its result the result of `agentIadd`;
     likewise for a `v` of any length.  (So every theorem about `.iadd` steps is about the three statements the code runs.) -/
